@@ -56,6 +56,8 @@ func init() {
 			"\t\terr := a.ioc.poller.DelWrite(&a.slot)\n\t\ta.slot.Handlers[internal.WriteEvent](err)", "C01-R4"},
 		mutant{"cancel of an idle object calls a stale handler", "file.go",
 			"func (f *file) cancelWrites() {\n\tif f.slot.Events&internal.PollerWriteEvent == internal.PollerWriteEvent {", "func (f *file) cancelWrites() {\n\tif f.slot.Handlers[internal.WriteEvent] != nil {", "C01-R4"},
+		mutant{"cancel also wipes whatever its callbacks re-armed", "file.go",
+			"func (f *file) Cancel() {\n\tf.cancelReads()\n\tf.cancelWrites()\n}", "func (f *file) Cancel() {\n\tf.cancelReads()\n\tf.cancelWrites()\n\t_ = f.ioc.UnsetReadWrite(&f.slot)\n}", "C01-R4"},
 		mutant{"close forgets the poller", "packet.go",
 			"\t_ = c.ioc.UnsetReadWrite(&c.slot)\n\tc.ioc.Deregister(&c.slot)\n\treturn syscall.Close(c.slot.Fd)", "\tc.ioc.Deregister(&c.slot)\n\treturn syscall.Close(c.slot.Fd)", "C01-R4"},
 		mutant{"hang-up no longer dispatched", "internal/poll_linux.go",
@@ -560,6 +562,49 @@ func runC01(c *Ctx) {
 			args := call.Common().Args
 			good := len(args) == 1 && nonNilAt(args[0], in.Block(), 0)
 			c.check(good, fn, "cancel "+dname+" error", in.Pos(), "the continuation receives a non-nil error", "the continuation may be called with a nil error: the handler would retry the operation instead of completing it with a cancellation error")
+		})
+	}
+	// R4b: outside Close (and the timer), removing an interest without completing the parked operation drops it silently
+	for _, fn := range p.Funcs {
+		pk, tn := recvTypeName(fn)
+		if !c14Owners[pk+"."+tn] {
+			continue
+		}
+		top := fn
+		for top.Parent() != nil {
+			top = top.Parent()
+		}
+		if top.Name() == "Close" {
+			continue // closing the object: its operations are dropped by contract (no callback after Close)
+		}
+		eachInstr(fn, func(in ssa.Instruction) {
+			var dirs []int64
+			switch {
+			case isCallTo(in, delRead...):
+				dirs = []int64{e.readEv}
+			case isCallTo(in, delWrite...):
+				dirs = []int64{e.writeEv}
+			case isCallTo(in, delBoth...):
+				dirs = []int64{e.readEv, e.writeEv}
+			default:
+				return
+			}
+			for _, d := range dirs {
+				d := d
+				okp, why := mustPass(in, func(x ssa.Instruction) bool {
+					call, ok := x.(ssa.CallInstruction)
+					if !ok || !isDynamicFuncCall(call) {
+						return false
+					}
+					k, _, ok := handlerIndexOf(call.Common().Value, handlersF)
+					return ok && k == d
+				})
+				dn := "read"
+				if d == e.writeEv {
+					dn = "write"
+				}
+				c.check(okp, fn, "removal completes "+dn, in.Pos(), "the operation whose interest is removed is completed through its handler", "the "+dn+" interest is removed outside Close without invoking the parked operation's handler ("+why+"): an operation in flight (e.g. one re-issued from a cancellation callback) is dropped and its callback never runs")
+			}
 		})
 	}
 	sysClose := p.ExtFunc("syscall", "Close")
